@@ -231,16 +231,16 @@ fn main() {
         run.generate("zoo-native-parent", n, false, 0.3, |ctx, idx, rng| {
             let mut r2 = rng.clone();
             if idx % 2 == 0 {
-                let d = zoo::gen_any::<Rgb565>(rng, &GenCfg::SMALL);
+                let d = if rng.chance(1, 10) { zoo::gen_dotted_rect(rng) } else { zoo::gen_any::<Rgb565>(rng, &GenCfg::SMALL_DOTTED) };
                 d.visit::<Rgb565, _>(&mut V { ctx, rng: &mut r2, native: true, convert: false });
             } else {
-                let d = zoo::gen_any::<BinaryColor>(rng, &GenCfg::SMALL);
+                let d = if rng.chance(1, 10) { zoo::gen_dotted_rect(rng) } else { zoo::gen_any::<BinaryColor>(rng, &GenCfg::SMALL_DOTTED) };
                 d.visit::<BinaryColor, _>(&mut V { ctx, rng: &mut r2, native: true, convert: false });
             }
         });
         run.generate("zoo-default-fill-parent", n, false, 0.3, |ctx, _idx, rng| {
             let mut r2 = rng.clone();
-            let d = zoo::gen_any::<Rgb565>(rng, &GenCfg::SMALL);
+            let d = if rng.chance(1, 10) { zoo::gen_dotted_rect(rng) } else { zoo::gen_any::<Rgb565>(rng, &GenCfg::SMALL_DOTTED) };
             d.visit::<Rgb565, _>(&mut V { ctx, rng: &mut r2, native: false, convert: false });
         });
         let nt = run.tier(100_000u64, 8_000_000u64);
@@ -261,7 +261,7 @@ fn main() {
         let nc = run.tier(150_000u64, 10_000_000u64);
         run.generate("color-converted", nc, false, 0.3, |ctx, _idx, rng| {
             let mut r2 = rng.clone();
-            let d = zoo::gen_any::<BinaryColor>(rng, &GenCfg::SMALL);
+            let d = if rng.chance(1, 10) { zoo::gen_dotted_rect(rng) } else { zoo::gen_any::<BinaryColor>(rng, &GenCfg::SMALL_DOTTED) };
             d.visit::<BinaryColor, _>(&mut VC { ctx, rng: &mut r2 });
         });
     })
